@@ -231,7 +231,6 @@ class Parser:
     def parse_char(self, token: Token) -> str:
         char = token.value[1:-1]
         if len(char) == 1:
-            # Any single character, including a lone backslash.
             return char
         return unescape_string(char, token, quote="'")
 
